@@ -126,7 +126,7 @@ PROPS = {
              "random increasing frequencies with spacing >= pi/(4(order+1)), rates 48k/96k, one frame of rate/20-1 samples; every 4th case with beta>0 "
              "(finite/decaying only). class = (order bucket, parity, stage, alpha, gain kind, beta); spectrum clause evaluated when the truncated tail is < -120 dB",
         theorem_clauses=["repaired lsp2lpc does not read the gain element; head coefficient 1", "gc2gc between equal gamma is truncation",
-                         "ignorm inverts gnorm (given the power law)", "MGLSA = cascade of `stage` sections", "gamma = -1/stage", "well-separated frequencies pass the stability check unchanged", "lsp2lpc = coefficients of (P+Q)/2 for every order", "with frozen coefficients the MGLSA cascade is linear and time-invariant: output = excitation convolved with the pulse response"],
+                         "ignorm inverts gnorm (given the power law)", "MGLSA = cascade of `stage` sections", "gamma = -1/stage", "well-separated frequencies pass the stability check unchanged", "lsp2lpc = coefficients of (P+Q)/2 for every order", "with frozen coefficients the MGLSA cascade is linear and time-invariant: output = excitation convolved with the pulse response", "alpha = 0: the per-frame coefficient chain collapses to [K, a_1..a_m] with a = coefficients of (P+Q)/2, and the cascade computes the all-pole difference equation of 1/A(z)^stage"],
         test_clauses=["|ln|H| - ln(K/|A(e^{jw~})|^s)| <= 0.001 neper within 100 dB of the peak, A from polynomial multiplication of the LSP factors",
                       "finite, decaying response"],
         assumptions=[],
